@@ -398,6 +398,8 @@ class Summaries:
                     cont = [tg for v, tg in sw["targets"] if v == 0]
                     if cont:
                         out.append((nb, cont[0]))
+                    elif [v for v, tg in sw["targets"]] == [1]:
+                        out.append((nb, sw["else"]))
             elif re.search(r"result::Result<T, E>>?::(unwrap|expect)$", cal):
                 out.append((i, nb))
         # `match helper(..) { Ok(..) => .., Err(e) => return Err(e) }`: a switch on the discriminant of the result itself
@@ -410,4 +412,6 @@ class Summaries:
                     okt = [tg for v, tg in sw["targets"] if v == 0]
                     if okt:
                         out.append((i, okt[0]))
+                    elif [v for v, tg in sw["targets"]] == [1]:
+                        out.append((i, sw["else"]))      # `if let Err(e) = r { .. }`: only the Err discriminant is named
         return out
